@@ -28,6 +28,10 @@ type mercScn struct {
 	noLabel    bool
 	outage     int // this many correct observers have no valid max-finalized value this round (failed lookup)
 	split      bool // the correct observers all report different max-finalized values this round (no f+1 agreement)
+	// twoCamps: exactly f+1 correct observers report the current max-finalized value — one of them has no usable
+	// prices this round, and under v1 their chain head IS that block (nothing mined since) — while all other correct
+	// observers sit behind a lagging server and agree on an older value; every one of the f+1 votes is needed
+	twoCamps bool
 }
 
 // indepEncInt192 / indepDecInt192: the wire form of an int192 (24 bytes, big-endian two's complement), written
@@ -424,6 +428,25 @@ func (s *mercScn) round(g *G) (aos []any, hidx []any) {
 				o["mft"], o["mftValid"] = S(s.mft), true
 			}
 		}
+		if s.twoCamps {
+			val := s.mft
+			if i > s.f {
+				val = s.mft - 15
+			}
+			if val < 0 {
+				val = 0
+			}
+			if s.v == 1 {
+				o["mfbn"], o["mfbnValid"] = S(val), true
+				if i <= s.f {
+					o["curNum"], o["curHash"], o["curTs"], o["curValid"] = "0", "", "0", false
+					o["blocks"] = s.chainBlocks(g, val, 1+g.R.Intn(5), 0)
+				}
+			} else {
+				o["mft"], o["mftValid"] = S(val), true
+			}
+			o["pricesValid"] = i != 0
+		}
 		l = append(l, lv{o, true})
 	}
 	for i := 0; i < s.b; i++ {
@@ -521,6 +544,12 @@ func genMercReports(g *G) {
 				s.b = 0
 			}
 			tag = "overrun"
+		case 3: // two camps of correct observers at bootstrap, every vote of the newer camp needed
+			if s.mft > 20 {
+				s.b, s.prev, s.twoCamps = 0, nil, true
+				s.n = 2*s.f + 2 + g.R.Intn(s.f)
+				tag = "two-camps-bootstrap"
+			}
 		case 2: // partial outage of the max-finalized lookup among the correct observers
 			if s.n >= 2*s.f+2 {
 				s.b = 0
@@ -737,6 +766,11 @@ func genMercHistories(g *G) {
 				// the value, all others (at least as many) have none
 				s.b = 0
 				s.outage = s.n - (s.f + 1)
+			}
+			s.twoCamps = false
+			if r == 0 && prev == nil && g.R.Intn(3) == 0 && s.mft > 20 {
+				s.b, s.outage, s.split, s.twoCamps = 0, 0, false, true
+				s.n = 2*s.f + 2 + g.R.Intn(s.f)
 			}
 			aos, hidx := s.round(g)
 			rounds = append(rounds, aos)
